@@ -181,3 +181,13 @@ Lemma equal_ts_clear_ok :
   let c := x_r (alook (x0 empty_coll) k_ts (m_hash (map_run true 0 equal_ts_clear m_init))) in
   hlen k_ts c = RInt 1 /\ hkeys k_ts c = rbulks [b_b].
 Proof. vm_compute. split; reflexivity. Qed.
+
+(* ---------- the size tests of hDeleteAll must cover every size ----------
+   with `<` in the test of the key-by-key loop and `>` in the test of the DeleteRange, a hash of exactly
+   RangeDeleteNum fields takes neither way and keeps all its field keys (the shape of a seeded change that the
+   big-collection class of the check catches; compare clear_elems_tests_exact, which holds for ALL sizes) *)
+Definition clear_elems_gap {V} (size v : Z) (es : list (vkey * V)) : list (vkey * V) :=
+  let es1 := if size <? range_delete_num then delete_each (BStart v) (BStop v) es else es in
+  if range_delete_num <? size then delete_range (BStart v) (BStop v) es1 else es1.
+Lemma clear_gap_keeps_everything {V} v (es : list (vkey * V)) : clear_elems_gap range_delete_num v es = es.
+Proof. unfold clear_elems_gap. rewrite !Z.ltb_irrefl. reflexivity. Qed.
